@@ -21,8 +21,8 @@ int main(int argc, char** argv) {
     Integrator* integ = which ? (Integrator*)new RungeKuttaFeldbergIntegrator(sys) : (Integrator*)new RungeKuttaMersonIntegrator(sys);
     integ->setAccuracy(acc); integ->initialize(s);
     double E0 = 0;
-    for (int i = 0; i <= 20; ++i) {
-        while (integ->stepTo(i * 0.01) != Integrator::ReachedReportTime) {}
+    for (int i = 0; i <= 60; ++i) {
+        while (integ->stepTo(i * 0.02) != Integrator::ReachedReportTime) {}
         const State& st = integ->getState(); sys.realize(st, Stage::Dynamics);
         double E = sys.calcEnergy(st), D = contact.getDissipatedEnergy(st);
         if (i == 0) E0 = E + D;
